@@ -39,6 +39,8 @@ def run(R, ctx):
     import c14 as _c14
     _c14.suffix_agreement(R, ctx, rule='R16.8')
     rotation_default(R, ctx)
+    R.rule('R16.11', 'one timestamp format per logger: helpers that name / parse files at start get the format stored in the naming state (shared with R06.3)')
+    c06.format_agreement(R, ctx, rule='R16.11')
     family_predicate_proxy(R, ctx, 'R16.8', 'existing_log_files lists exactly the family: the predicate of the listing agrees with the naming (shared with R14.2)')
 
 def rotation_default(R, ctx):
